@@ -19,6 +19,6 @@ sed -i "s#path = \"/repo\"#path = \"$WT\"#" $H/Cargo.toml $H/np/Cargo.toml
 cd /verif
 for p in "$@"; do
   echo "== $p"
-  SPECS_REPO=$WT VERIF_HARNESS=$H VERIF_TARGET=/verif/build/mutrun-target$TAG VERIF_REPLAYS=/verif/build/mutrun-replays$TAG VERIF_EVIDENCE=/verif/build/mutrun-evidence$TAG timeout 1200 bin/check "$p" --tier quick 2>&1 | grep -E "VIOLATION|KNOWN|error|Traceback" | head -5
+  SPECS_REPO=$WT VERIF_HARNESS=$H VERIF_TARGET=/verif/build/mutrun-target$TAG VERIF_REPLAYS=/verif/build/mutrun-replays$TAG VERIF_EVIDENCE=/verif/build/mutrun-evidence$TAG timeout ${MUTRUN_TIMEOUT:-1200} bin/check "$p" --tier quick 2>&1 | grep -E "VIOLATION|KNOWN|error|Traceback" | head -5
 done
 git -C /repo worktree remove --force $WT
